@@ -621,6 +621,14 @@ func (w *worker) runOne(it workItem) {
 		}()
 		endKind = "violation"
 	}
+	if endKind == "exit" && ex.cfg.PanicIsViolation && endMsg != "0" {
+		// library code that ends the process (log.Fatal, os.Exit(n != 0)) is a crash like an uncaught panic
+		func() {
+			defer func() { recover() }()
+			r.violation("panic", "the code under test exits the process ("+endMsg+")", nil)
+		}()
+		endKind = "violation"
+	}
 	if endKind == "budget" && ex.cfg.BudgetIsViolation {
 		func() {
 			defer func() { recover() }()
@@ -662,6 +670,8 @@ func (w *worker) runOne(it workItem) {
 		ex.inconclusive["budget: "+endMsg]++
 	case "panic":
 		ex.inconclusive["uncaught panic (not configured as violation): "+endMsg]++
+	case "exit":
+		ex.inconclusive["process exit (not configured as violation): "+endMsg]++
 	}
 	total := int64(0)
 	for _, n := range ex.paths {
